@@ -7098,6 +7098,10 @@ class FrameGO(Frame):
         if isinstance(container, Frame):
             if not len(container.columns):
                 return
+            # validate before growing: a rejected call must leave labels and data in step
+            for key in container.keys():
+                if key in self._columns:
+                    raise KeyError(f'duplicate key append attempted: {key}')
             self._columns.extend(container.keys())
             self._blocks.extend(container._blocks)
         elif isinstance(container, Series):
